@@ -22,12 +22,15 @@ import asyncio
 import base64
 import binascii
 import hashlib
+import hmac
 import json
 import os
 import shutil
 import signal
 import stat
+import string
 import tempfile
+import unicodedata
 import zlib
 
 import lbry.wallet  # noqa: F401  (first lbry import)
@@ -38,6 +41,9 @@ from lbry.wallet import Ledger, Database, Headers, Wallet, Account
 from lbry.wallet.wallet import WalletStorage, ENCRYPT_ON_DISK
 from lbry.wallet.bip32 import PrivateKey
 from lbry.wallet.words import english
+from lbry.wallet.mnemonic import CJK_INTERVALS     # a table of code-point ranges (data)
+
+import coincurve
 
 from cryptography.hazmat.primitives.ciphers import Cipher, modes
 from cryptography.hazmat.primitives.ciphers.algorithms import AES
@@ -144,6 +150,45 @@ def o_xparse(b):
     return b'\x00' + b58check_encode(canon).encode()
 
 
+def _is_cjk(c):
+    n = ord(c)
+    return any(a <= n <= b for a, b, _ in CJK_INTERVALS)
+
+
+def _normalize_text(seed):
+    seed = unicodedata.normalize('NFKD', seed).lower()
+    seed = ''.join(c for c in seed if not unicodedata.combining(c))
+    seed = ' '.join(seed.split())
+    return ''.join(seed[i] for i in range(len(seed))
+                   if not (seed[i] in string.whitespace and _is_cjk(seed[i - 1]) and _is_cjk(seed[i + 1])))
+
+
+def _address(pubkey33):
+    h = hashlib.new('ripemd160', hashlib.sha256(pubkey33).digest()).digest()
+    return b58check_encode(b'\x55' + h).encode()
+
+
+def o_addr_of_seed(b):
+    """address of the master key of a seed: PBKDF2-HMAC-SHA512(normalised text, 'lbryum', 2048) -> HMAC-SHA512('Bitcoin
+    seed') -> secp256k1 public key -> Base58Check(0x55 + hash160)   (hashlib / hmac / coincurve only)"""
+    try:
+        s64 = hashlib.pbkdf2_hmac('sha512', _normalize_text(b.decode()).encode(), b'lbryum', 2048, 64)
+        i = hmac.new(b'Bitcoin seed', s64, hashlib.sha512).digest()
+        return _address(coincurve.PrivateKey(i[:32]).public_key.format(compressed=True))
+    except Exception:  # noqa
+        return b'<no key for this seed>'
+
+
+def o_addr_of_pub(b):
+    try:
+        v = 0
+        for c in b.decode():
+            v = v * 58 + B58.index(c)
+        return _address(v.to_bytes(82, 'big')[45:78])
+    except Exception:  # noqa
+        return b'<not an extended public key>'
+
+
 def o_scrypt(pw, salt, n, r, p):
     return Scrypt(salt, length=32, n=int(n), r=int(r), p=int(p), backend=default_backend()).derive(pw)
 
@@ -161,6 +206,7 @@ def o_zd(b):
 ORACLES = {
     'kdf': sha256d, 'E': o_E, 'D': o_D,
     'b64e': base64.b64encode, 'b64d': o_b64d, 'utf8_ok': o_utf8_ok, 'seed_ok': o_seed_ok, 'xparse': o_xparse,
+    'addr_of_seed': o_addr_of_seed, 'addr_of_pub': o_addr_of_pub,
     'jstr': lambda b: json.dumps(b.decode()).encode(), 'scrypt': o_scrypt, 'zc': zlib.compress, 'zd': o_zd,
 }
 
@@ -496,11 +542,11 @@ def plain_forms(truth):
 
 
 def strings_in(o):
+    """every string VALUE of a parsed JSON document (keys such as "version" or "private_key" are not secrets)"""
     if isinstance(o, str):
         yield o
     elif isinstance(o, dict):
         for k, v in o.items():
-            yield k
             yield from strings_in(v)
     elif isinstance(o, list):
         for v in o:
@@ -519,6 +565,7 @@ class Machine:
         self.wallet = Wallet.from_storage(WalletStorage(self.path), self.world)
         self.truth = []            # per account: plaintext secrets when it was added (None once tampered / foreign)
         self.acc_pw = []           # per account: the password it is currently encrypted under (None = plaintext)
+        self.disk_pw = []          # the same for the accounts as they are in the wallet file
         self.violations = []
         self.model.call('init', path=hx(self.path), umask=str(UMASK))
 
@@ -620,15 +667,17 @@ class Machine:
                 if t and (a.private_key is not None or (t['seed'] and a.seed == t['seed'])):
                     bad.append(('lock left account %d in plaintext' % i, {'finding': 'lock_leaves_plaintext'}))
         elif k in ('reload', 'save_crash'):
-            # state comes from the file now: every account is either plaintext or encrypted under the password
-            # the file was written with; recover that from the flags
+            # state comes from the file now
+            if k == 'save_crash' and read_file(self.path) is not None and read_file(self.path)['data'] == op.get('_new_file'):
+                self.disk_pw = op['_new_disk_pw']
+            # (a crash before the first save of added accounts loses them: that is the old version)
+            self.truth = self.truth[:len(w.accounts)]
+            self.acc_pw = list(self.disk_pw[:len(w.accounts)]) + [None] * (len(w.accounts) - len(self.disk_pw))
             for i, a in enumerate(w.accounts):
-                if i < len(self.acc_pw) and not a.encrypted:
+                if not a.encrypted:
                     self.acc_pw[i] = None
-            if len(w.accounts) != len(self.truth):
-                # (a crash before the first save of added accounts loses them: that is the old version)
-                self.truth = self.truth[:len(w.accounts)]
-                self.acc_pw = self.acc_pw[:len(w.accounts)]
+        if k in ('save', 'encrypt', 'decrypt') and out == 'True':
+            self.disk_pw = self.pw_on_disk_after_save()
         if k in ('unlock', 'acc_decrypt'):
             idx = range(len(w.accounts)) if k == 'unlock' else [op['i']]
             if out == 'True':
@@ -648,25 +697,24 @@ class Machine:
                 if views != self.pre['views'] or w.encryption_password != self.pre['pw']:
                     changed = [i for i, (x, y) in enumerate(zip(views, self.pre['views'])) if x != y]
                     failing = [i for i in idx if w.accounts[i].encrypted][:1]
-                    if failing and all(i < failing[0] for i in changed) and w.encryption_password == self.pre['pw']:
-                        bad.append((f'unlock with {op["pw"][:40]!r} was refused ({out}) by account {failing[0]}, but accounts '
-                                    f'{changed} before it were decrypted and stay decrypted: the wallet is not unchanged',
-                                    {'finding': 'failed_unlock_leaves_earlier_accounts_decrypted'}))
+                    if out != 'False' and failing and all(i < failing[0] for i in changed) \
+                            and w.encryption_password == self.pre['pw'] \
+                            and all(self.acc_pw[i] == op['pw'] for i in changed):
+                        # an exception escaping from a LATER account (corrupted key ciphertext under the RIGHT password)
+                        # skips the re-locking: outside the property text, which speaks of another password
+                        self.run.count('observation:exception-from-later-account-skips-relock')
                     else:
-                        bad.append((f'unlock with {op["pw"][:40]!r} was refused ({out}) but the state changed (accounts {changed})',
+                        bad.append((f'unlock with {op["pw"][:40]!r} was refused ({out}) but the wallet is not unchanged: '
+                                    f'accounts {changed} differ' +
+                                    (f' (accounts before the refusing account {failing[0]} stay decrypted)'
+                                     if failing and changed and all(i < failing[0] for i in changed) else ''),
                                     {'finding': 'failed_unlock_changes_state'}))
-                # the same password that encrypted every still-encrypted account must not be refused
+                # the password that encrypted every still-encrypted account must not be refused
                 enc_idx = [i for i in idx if self.pre['enc'][i]]
                 if enc_idx and all(self.acc_pw[i] == op['pw'] and self.truth[i] is not None for i in enc_idx):
-                    seeds = [self.truth[i]['seed'] for i in enc_idx]
-                    if any(sd and o_seed_ok(sd.encode()) == b'\x00' for sd in seeds):
-                        bad.append((f'unlock with the password the wallet was encrypted with is refused ({out}): a seed '
-                                    f'that is not made of English word-list words fails Mnemonic().mnemonic_decode in '
-                                    f'Account._decrypt_seed; seeds={seeds!r}',
-                                    {'finding': 'unlock_refuses_correct_password', 'cause': 'seed_not_english_wordlist'}))
-                    else:
-                        bad.append((f'unlock with the password the wallet was encrypted with is refused ({out})',
-                                    {'finding': 'unlock_refuses_correct_password', 'cause': 'unknown'}))
+                    bad.append((f'unlock with the password the wallet was encrypted with is refused ({out}); seeds='
+                                f'{[self.truth[i]["seed"] for i in enc_idx]!r}',
+                                {'finding': 'unlock_refuses_correct_password'}))
         if k in ('save', 'encrypt', 'decrypt') and out == 'True':
             bad += self.check_file()
         if k == 'save_crash':
@@ -679,6 +727,13 @@ class Machine:
                             f'previous nor the new version ({"missing" if got is None else str(len(gd) // 2) + " bytes"})',
                             {'finding': 'save_not_atomic', 'n': op['n']}))
         return bad
+
+    def pw_on_disk_after_save(self):
+        """per account, the password its secrets are encrypted under in a file written by save() now"""
+        w = self.wallet
+        sealing = w.preferences.get(ENCRYPT_ON_DISK, False) and w.encryption_password
+        return [self.acc_pw[i] if a.encrypted else (w.encryption_password if sealing else None)
+                for i, a in enumerate(w.accounts)]
 
     def check_file(self):
         w = self.wallet
@@ -694,7 +749,9 @@ class Machine:
             if t is None:
                 continue
             for what, needle in plain_forms(t):
-                hit = needle in data
+                # short needles (a one-word seed such as 'version') are looked for in the JSON values only; long ones
+                # anywhere in the bytes as well
+                hit = len(needle) >= 20 and needle in data
                 if not hit and what in ('seed', 'xprv'):
                     hit = any(needle.decode() in x for x in strs)
                 if hit:
@@ -718,6 +775,7 @@ class Machine:
             if op['k'] == 'save_crash':
                 # the new version = what an uninterrupted save would write (taken from a dry run of the real code)
                 op['_new_file'] = self.dry_save(op)
+                op['_new_disk_pw'] = self.pw_on_disk_after_save()
             self.before(op)
             out = self.impl(op)
             bad = self.after(op, out)
@@ -1101,8 +1159,10 @@ def gen_machine_case(world, rng, flavour):
     nacc = rng.choice([0, 1, 1, 1, 2, 2, 3])
     if flavour in ('mixed', 'badseed', 'tamper') and nacc == 0:
         nacc = 1
-    if flavour == 'mixed':
+    if flavour == 'tamper' and rng.random() < 0.5:
         nacc = rng.choice([2, 3])
+    if flavour == 'mixed':
+        nacc = 2
     kinds = []
     for i in range(nacc):
         sk = 'valid'
@@ -1142,11 +1202,19 @@ def gen_machine_case(world, rng, flavour):
         if rng.random() < 0.5:
             ops += [{'k': 'decrypt', 'ts': T(), 'rnd': R()}, {'k': 'reload'}]
     elif flavour == 'mixed':
-        pws = [pw, other_password(rng, pw), other_password(rng, pw + 'z')]
-        for i in range(nacc):
-            ops.append({'k': 'acc_encrypt', 'i': i, 'pw': pws[i], 'rnd': R()})
-        ops.append({'k': 'unlock', 'pw': pws[rng.randrange(nacc)]})
-        ops.append({'k': 'unlock', 'pw': pws[0]})
+        A, B, C = pw, other_password(rng, pw), other_password(rng, pw + 'z')
+        pattern = rng.choice([[A, B], [A, B, C], [A, A, B], [A, B, A], [A, A, B], [B, A, A]])
+        while nacc < len(pattern):
+            ops.append({'k': 'add', 'spec': gen_spec(world, rng, 'valid', rng.choice(['seed', 'key']))})
+            nacc += 1
+        if rng.random() < 0.5:
+            # the wallet has a password of its own, different from the one that will be tried
+            ops.append({'k': 'encrypt', 'pw': other_password(rng, pw + 'y'), 'ts': T(), 'rnd': R()})
+        for i in range(len(pattern)):
+            ops.append({'k': 'acc_encrypt', 'i': i, 'pw': pattern[i], 'rnd': R()})
+        ops.append({'k': 'unlock', 'pw': A})
+        ops.append({'k': 'unlock', 'pw': rng.choice([A, B, C])})
+        ops.append({'k': 'unlock', 'pw': A})
     elif flavour == 'badseed':
         ops += [{'k': 'encrypt', 'pw': pw, 'ts': T(), 'rnd': R()}, {'k': 'lock', 'rnd': R()}, {'k': 'unlock', 'pw': pw}]
         if rng.random() < 0.5:
@@ -1162,8 +1230,12 @@ def gen_machine_case(world, rng, flavour):
                                     b58check_encode(XPUB + bytes(74)), b58check_encode(XPRV + bytes(41) + b'\x01' + bytes(32)),
                                     b58check_encode(XPRV + bytes(74)), 'not a seed at all', 'abandon ability', '   ',
                                     b58check_encode(XPRV + b'\x03' + b'\x01\x02\x03\x04' + bytes(4) + bytes(32) + b'\x00' + b'\x11' * 32)])
-        ops += [{'k': 'acc_encrypt', 'i': i, 'pw': pw, 'rnd': R()}, t]
-        ops.append(rng.choice([{'k': 'acc_decrypt', 'i': i, 'pw': pw}, {'k': 'unlock', 'pw': pw}]))
+        if rng.random() < 0.4:
+            # the whole wallet locked under pw, then one account corrupted: accounts before it open, it refuses
+            ops += [{'k': 'encrypt', 'pw': pw, 'ts': T(), 'rnd': R()}, {'k': 'lock', 'rnd': R()}, t, {'k': 'unlock', 'pw': pw}]
+        else:
+            ops += [{'k': 'acc_encrypt', 'i': i, 'pw': pw, 'rnd': R()}, t]
+            ops.append(rng.choice([{'k': 'acc_decrypt', 'i': i, 'pw': pw}, {'k': 'unlock', 'pw': pw}]))
         ops.append({'k': 'unlock', 'pw': pw})
     elif flavour == 'crash':
         ops += [{'k': 'save', 'ts': T(), 'rnd': R()}] if rng.random() < 0.6 else []
@@ -1295,7 +1367,7 @@ def main(run):
             run_case(world, model, run, case)
         mark('corpus')
         plan = [('lifecycle', S(30, 500)), ('walk', S(40, 900)), ('crash', S(8, 250)), ('tamper', S(45, 900)),
-                ('mixed', S(4, 50)), ('badseed', S(6, 60))]
+                ('mixed', S(12, 150)), ('badseed', S(6, 60))]
         for flavour, n in plan:
             for _ in range(n):
                 run_case(world, model, run, gen_machine_case(world, rng, flavour))
@@ -1336,11 +1408,19 @@ def main(run):
         world.close()
     run.notes.append({'seconds_per_section': {b[0]: round(b[1] - a[1], 1) for a, b in zip(marks, marks[1:])}})
     run.partial = ['C13_failed_unlock_unchanged_partial: that a wrong password IS refused is cryptographic chance (padding, '
-                   'UTF-8, word list, Base58 checksum) and is not claimed; the theorem starts from the refusal']
+                   'UTF-8, public key of the seed, Base58 checksum) and is not claimed; the theorem starts from the refusal '
+                   '(by any account), and assumes that an account the password does open was sealed under it by Account.encrypt']
     run.supporting = {'not_modelled': 'key derivation from the seed (C06), json.loads, the daemon API around the wallet'}
     run.notes.append({'observation': 'channel private keys (certificates) are written as plaintext PEM even when the wallet '
                                      'file is encrypted; the property text names only seed and account private key',
                       'count': run.hist.get('observation:channel-PEM-plaintext-in-encrypted-file', 0)})
+    run.notes.append({'observation': 'a Base58Error escaping from Account.decrypt of a LATER account (corrupted private-key '
+                                     'ciphertext under the right password) skips the re-locking added by a1c8e7f: the accounts '
+                                     'before it stay decrypted',
+                      'count': run.hist.get('observation:exception-from-later-account-skips-relock', 0)})
+    run.notes.append({'observation': "scrypt/HMAC: passwords that differ only by trailing NUL characters ('x', 'x\\x00') are "
+                                     'equivalent for pack/unpack (not for wallet unlock, which hashes the password); the '
+                                     'temporary file and the window between rename and chmod have mode 0644'})
 
 
 def replay(run, case):
